@@ -6,8 +6,9 @@
 (* one trace per real generator run + import of the emitted library:       *)
 (*   validate{ok}                      the generator accepted / rejected   *)
 (*   selective{listed,types,rpcs,svcs} hook: methods + address allow-list  *)
-(*   built{types,public,internal,underscored,svcs,clients}                 *)
+(*   built{types,public,internal,underscored,svcs,clients,files}           *)
 (*                                     hook: Proto / Service / Method      *)
+(*   files{files}                      types modules in the response       *)
 (*   types{types}                      classes found in the imported lib   *)
 (*   rpcs{public,internal,publicAsync,internalAsync}  client methods       *)
 (*   clients{svcs,clients}             service packages, exported clients  *)
@@ -30,7 +31,7 @@ S(x) == ToSet(x)
 
 GraphOf(t) == LET j == Traces[t].graph IN
   [family |-> j.family, msgs |-> S(j.msgs), enums |-> S(j.enums), parent |-> S(j.parent), deps |-> S(j.deps),
-   fields |-> S(j.fields), res |-> S(j.res), refs |-> S(j.refs), order |-> j.order, rpcs |-> S(j.rpcs)]
+   fields |-> S(j.fields), res |-> S(j.res), refs |-> S(j.refs), order |-> j.order, rpcs |-> S(j.rpcs), files |-> S(j.files)]
 FullSync  == S(Traces[tid].ref.sync)
 FullAsync == S(Traces[tid].ref.async)
 
@@ -64,8 +65,10 @@ TSelective == /\ AtEvent("selective") /\ phase = "closed"
 TBuilt == /\ AtEvent("built") /\ phase = "closed"
           /\ IF /\ "built" \notin seen /\ (Sel = "prune" <=> "selective" \in seen)
                 /\ TypesOK(S(Ev[l].types)) /\ RpcsOK(S(Ev[l].public), S(Ev[l].internal)) /\ S(Ev[l].underscored) = Internal
-                /\ SvcsOK(S(Ev[l].svcs)) /\ ClientsOK(S(Ev[l].clients))
+                /\ SvcsOK(S(Ev[l].svcs)) /\ ClientsOK(S(Ev[l].clients)) /\ FilesOK(S(Ev[l].files))
              THEN Observed("built") ELSE Reject
+TFiles == /\ AtEvent("files") /\ phase = "closed"
+          /\ IF "built" \in seen /\ "files" \notin seen /\ FilesOK(S(Ev[l].files)) THEN Observed("files") ELSE Reject
 TTypes == /\ AtEvent("types") /\ phase = "closed"
           /\ IF "built" \in seen /\ "types" \notin seen /\ TypesOK(S(Ev[l].types)) THEN Observed("types") ELSE Reject
 TRpcs == /\ AtEvent("rpcs") /\ phase = "closed"
@@ -77,14 +80,14 @@ TClients == /\ AtEvent("clients") /\ phase = "closed"
             /\ IF "built" \in seen /\ "clients" \notin seen /\ SvcsOK(S(Ev[l].svcs)) /\ ClientsOK(S(Ev[l].clients))
                THEN Observed("clients") ELSE Reject
 TUsable == /\ AtEvent("usable") /\ phase = "closed"
-           /\ IF {"built", "types", "rpcs", "clients"} \subseteq seen /\ S(Ev[l].bad) = {}
+           /\ IF {"built", "files", "types", "rpcs", "clients"} \subseteq seen /\ S(Ev[l].bad) = {}
               THEN Publish /\ Advance /\ UNCHANGED <<seen, called>> ELSE Reject
 TCall == /\ AtEvent("call") /\ phase \in {"closed", "done"}
          /\ IF phase = "done" /\ Ev[l].rpc \in KeptRpcs \ called /\ Ev[l].same
             THEN called' = called \cup {Ev[l].rpc} /\ UNCHANGED <<vars, seen>> /\ Advance ELSE Reject
 TNextTrace == /\ tid <= N /\ l = Len(Ev) + 1 /\ phase \notin {"reach", "up"}
               /\ IF phase = "failed" \/ (phase = "done" /\ called = KeptRpcs \cap FullSync) THEN Accept ELSE Reject
-TNext == TValidate \/ TStep \/ TSelective \/ TBuilt \/ TTypes \/ TRpcs \/ TClients \/ TUsable \/ TCall \/ TNextTrace
+TNext == TValidate \/ TStep \/ TSelective \/ TBuilt \/ TFiles \/ TTypes \/ TRpcs \/ TClients \/ TUsable \/ TCall \/ TNextTrace
 TSpec == TInit /\ [][TNext]_tvars
 \* CONSTRAINT (workers 1): register 2 = how far the batch got before the first rejection (PagerTrace meaning),
 \* register 4 = how far it got at all
